@@ -47,7 +47,7 @@ def bodies(crate):
 
 def find_body(bods, pattern, nth=0, all_=False):
     """pattern: regex searched in the body's header line (which holds name and signature). CTFE duplicates (#2) skipped."""
-    hits = [b for n, b in bods.items() if not re.search(r"#\d+$", n) and re.search(pattern, b.header)]
+    hits = [b for n, b in bods.items() if re.search(pattern, b.header)]
     if all_:
         return hits
     if not hits:
